@@ -253,4 +253,4 @@ func c06Gen(tier string, rng *rand.Rand, emit func(string)) map[string]interface
 	}
 }
 
-func init() { register("C06", &Prop{Gen: c06Gen, Run: c06Run, CaseTimeout: 2 * time.Second}) }
+func init() { register("C06", &Prop{Gen: c06Gen, Run: c06Run, CaseTimeout: 6 * time.Second}) }
